@@ -336,7 +336,7 @@ fn explore_two_signs(auto0: bool, auto1: bool, rep: &mut Report) {
                 report(&pop, &h, &bad, rep);
                 continue;
             }
-            if w.guides.iter().any(|g| g.pending.len() > 16 || g.chunks > 2 || g.pages.len() > 1) {
+            if w.guides.iter().any(|g| g.pending.len() > 32 || g.chunks > 2 || g.pages.len() > 1) {
                 continue;
             }
             if nodes.len() < 2_000_000 && seen.insert(key(&w)) {
@@ -354,10 +354,10 @@ fn explore_two_signs(auto0: bool, auto1: bool, rep: &mut Report) {
 }
 
 pub fn run(ctx: &Ctx) -> Outcome {
-    let n_hist = ctx.size(50_000, 5_000_000);
+    let n_hist = ctx.size(600_000, 6_000_000);
     let max_len = if ctx.quick() { 80 } else { 300 };
     let shards = 64usize;
-    let bfs_cfgs: Vec<(bool, bool)> = if ctx.quick() { vec![(false, true)] } else { vec![(false, false), (false, true), (true, false), (true, true)] };
+    let bfs_cfgs: Vec<(bool, bool)> = vec![(false, false), (false, true), (true, false), (true, true)];
     let nb = bfs_cfgs.len();
     let report = run_sharded(ctx, nb + shards, |shard, rep| {
         if shard < nb {
